@@ -286,7 +286,9 @@ class Prog:
                 def f():
                     self.dilate_budget -= 1
                     pi = self.rng.choice([None, None, 5, 30, 2.5])       # (seconds; whole numbers are as legal as floats)
-                    self._api("dilate", lambda: app.w.dilate(no_listen=self.rng.random() < 0.2, ping_interval=pi))
+                    # (once the wormhole is closed - by the application or by itself after an error the application has
+                    #  not been told about yet - the call is refused with WormholeClosed)
+                    self._api("dilate", lambda: app.w.dilate(no_listen=self.rng.random() < 0.2, ping_interval=pi), ("WormholeClosed",))
                 acts.append(((name, "dilate"), f))
         if self.budget["send"] > 0 and not closing:
             def f():
